@@ -113,6 +113,50 @@ func (a *Analyzer) Normalize(f Facts) (Facts, map[string]*Term) {
 	return res, rw
 }
 
+// Assume adds an atom (and what it implies through the validator summaries) to the facts of this evaluation:
+// used for "this return accepts only if <returned value> is nil/true".
+func (ev *Eval) Assume(a *Atom) {
+	f := ev.facts.Clone()
+	f.Add(a)
+	addConjuncts(f, a)
+	if ev.E.Flow != nil {
+		ev.E.Flow.addDerived(f, a)
+	}
+	ev.facts, ev.rw = ev.A.Normalize(f)
+}
+
+// Simplify resolves conditional (ite) sub-terms whose condition is decided by the facts.
+func (ev *Eval) Simplify(t *Term) *Term {
+	has := func(a *Atom) bool { return ev.facts.Has(a) != nil }
+	var rec func(t *Term) *Term
+	rec = func(t *Term) *Term {
+		if t.Op == "ite" && len(t.Args) == 3 {
+			switch evalBool(t.Args[0], has) {
+			case 1:
+				return rec(t.Args[1])
+			case -1:
+				return rec(t.Args[2])
+			}
+		}
+		if len(t.Args) == 0 {
+			return t
+		}
+		changed := false
+		na := make([]*Term, len(t.Args))
+		for i, x := range t.Args {
+			na[i] = rec(x)
+			if na[i] != x {
+				changed = true
+			}
+		}
+		if !changed {
+			return t
+		}
+		return rebuild(t, na)
+	}
+	return rec(t)
+}
+
 func (ev *Eval) Norm(t *Term) *Term {
 	for i := 0; i < 4; i++ {
 		n := t.Subst(ev.rw)
@@ -242,6 +286,12 @@ func (ev *Eval) Same(x, y *Term) bool {
 func (ev *Eval) same(x, y *Term, depth int) bool {
 	if x.Key() == y.Key() {
 		return true
+	}
+	if depth == 0 && (x.ContainsKey("ite(") || y.ContainsKey("ite(")) {
+		x, y = ev.Simplify(x), ev.Simplify(y)
+		if x.Key() == y.Key() {
+			return true
+		}
 	}
 	if depth > 8 {
 		return false
